@@ -23,6 +23,9 @@ symbolic ints are compared as values, and through the rendered text (constant le
 """
 import random
 
+# block identifiers as printed (the interpreter works on the abstract names); set by a harness before printing
+BLOCK_RENAME = {}
+
 UNDEF = ("<undefined>",)
 
 
@@ -73,7 +76,7 @@ def pstmt(s, rn):
     if k == "supersuper":
         return "{{ super.super() }}"
     if k == "selfsuper":
-        return "{{ self.%s.super() }}" % s[1]
+        return "{{ self.%s.super() }}" % BLOCK_RENAME.get(s[1], s[1])
     if k == "if":
         r = "{%% if c%d %%}%s" % (s[1], pstmts(s[2], rn))
         if s[3] is not None:
@@ -105,11 +108,11 @@ def pstmt(s, rn):
         return "{%% set %s.%s = %s %%}" % (rn(s[1]), s[2], pexpr(s[3], rn))
     if k == "block":
         mods = (" scoped" if s[3] else "") + (" required" if len(s) > 4 and s[4] else "")
-        return "{%% block %s%s %%}%s{%% endblock %%}" % (s[1], mods, pstmts(s[2], rn))
+        return "{%% block %s%s %%}%s{%% endblock %%}" % (BLOCK_RENAME.get(s[1], s[1]), mods, pstmts(s[2], rn))
     if k == "super":
         return "{{ super() }}"
     if k == "selfblock":
-        return "{{ self.%s() }}" % s[1]
+        return "{{ self.%s() }}" % BLOCK_RENAME.get(s[1], s[1])
     if k == "extends":
         e = "{%% extends %r %%}" % s[1][1] if s[1][0] == "const" else "{% extends parent_name %}"
         if len(s) > 2 and s[2] is not None:
